@@ -67,6 +67,18 @@ impl Workload {
 }
 
 /// Runs one workload to quiescence and returns the engine (trace inside).
+/// Label of a WHOAREYOU that echoes the nonce of a packet in flight but comes from another socket
+/// than the one that packet went to. The handler does not act on it, except that it puts the
+/// request back with a fresh timer: the request's timeout period starts again.
+pub const FOREIGN_WHOAREYOU: &str = "whoareyou-for-a-live-request-from-a-foreign-socket:";
+
+pub fn foreign_whoareyou(class: &InClass) -> Option<[u8; 12]> {
+    match class {
+        InClass::Crafted(label) => label.strip_prefix(FOREIGN_WHOAREYOU).and_then(|h| hex::decode(h).ok()).and_then(|v| v.try_into().ok()),
+        _ => None,
+    }
+}
+
 pub fn run_workload(seed: u64, w: &Workload) -> Engine {
     let rt = runtime(seed);
     rt.block_on(async {
@@ -93,6 +105,10 @@ pub fn run_workload(seed: u64, w: &Workload) -> Engine {
             b.nodes_packets = 1 + rng.below(5);
             if w.nodes_lies && rng.chance(1, 2) {
                 b.nodes_total = Some(*rng.pick(&[0u64, 1, 2, 7, 16, u64::MAX]));
+            }
+            if w.with_enrless && rng.chance(1, 3) {
+                // slow to hand out its own record: the answer arrives after the request for it ran out
+                b.enr_answer_delay = Some(timeout * (w.retries.max(1) as u32) + Duration::from_millis(rng.below(2 * timeout.as_millis() as u64 + 1)));
             }
             b.known_victim_seq = if rng.bool() { 0 } else { 1 };
             b.always_attach_record = rng.bool();
@@ -145,6 +161,18 @@ pub fn run_workload(seed: u64, w: &Workload) -> Engine {
                         let wdg = e.peers[i].sim.whoareyou(&vid, nonce, seq);
                         let cd = e.peers[i].sim.sent_challenges[&nonce].clone();
                         e.peers[i].all_challenges.push(cd);
+                        if e.rng.chance(1, 4) {
+                            // ... sent by someone who saw the packet on its way, from another socket
+                            let from = match e.rng.below(3) {
+                                0 => SocketAddr::new(addr.ip(), addr.port().wrapping_add(1).max(1)),
+                                1 => e.peers[e.rng.usize(w.npeers)].sim.addr(),
+                                _ => crate::rig::r1::v4(10, 250, 0, 1 + e.rng.below(200) as u8, 9999),
+                            };
+                            if from != addr {
+                                e.send_to_victim(i, from, wdg, InClass::Crafted(format!("{FOREIGN_WHOAREYOU}{}", hx(&nonce))));
+                                continue;
+                            }
+                        }
                         e.send_to_victim(i, addr, wdg, InClass::WhoAreYou { request_nonce: nonce });
                     }
                 }
@@ -529,6 +557,18 @@ pub fn check_c13(e: &Engine, w: &Workload, seed: u64, rep: &mut Report) -> Vec<&
                         if t.at <= c.0 + timeout + slack {
                             c.0 = t.at;
                             c.1 = false;
+                        }
+                    }
+                }
+                if let Some(n) = foreign_whoareyou(class) {
+                    // the request travelling under that nonce gets a fresh timer
+                    let rid = trace[..idx].iter().rev().find_map(|u| match &u.ev {
+                        Ev::Sent { class: OutClass::Message { nonce, msg: Some(m), .. } | OutClass::Handshake { nonce, msg: Some(m), .. }, .. } if *nonce == n => Some(m.id().to_vec()),
+                        _ => None,
+                    });
+                    if let Some(i) = rid.and_then(|id| internal.get_mut(&id)) {
+                        if !i.2 && t.at <= i.1 + timeout * (retries + 2) + slack {
+                            i.1 = t.at;
                         }
                     }
                 }
